@@ -54,6 +54,15 @@ func (p *vpool) Put(x any)   { harnessLog.add("put:" + p.name) }
 func (p *vpool) Reset(x any) { harnessLog.add("reset:" + p.name) }
 
 func init() {
+	// vok(x): if-ok helper; the value is x, ok reports whether x has a non-empty text
+	dyntpl.RegisterCondOKFn("vok", func(ctx *dyntpl.Ctx, v *any, ok *bool, args []any) {
+		*v, *ok = nil, false
+		if len(args) == 0 {
+			return
+		}
+		t, _ := textOf(ctx, args[0])
+		*v, *ok = args[0], len(t) > 0
+	})
 	dyntpl.RegisterModFn("vup", "", func(ctx *dyntpl.Ctx, buf *any, val any, _ []any) error {
 		t, ok := textOf(ctx, val)
 		if !ok {
